@@ -200,6 +200,18 @@ def stepOk (C : GBConf) (vals : List Value) : Bool :=
 def run (C : GBConf) (s : List Msg) : Option (List Msg) :=
   if (recs s).all (fun r => stepOk C r.vals) then some (gbRun wl C (buffer s)) else none
 
+/-! ### the node's table -/
+/-- the `aggregates` tree after a list of records (it does not depend on the trigger) -/
+def aggsAfter (C : GBConf) (rs : List Rec) : List (Key × AggItem) :=
+  rs.foldl (fun a r => updAggs C r a) []
+
+/-- multiplicity of `row` in the table the node holds: 1 when the row is (pointwise `Compare == 0`) the row
+    derivable for its own key part, else 0 -/
+def tableOf (C : GBConf) (nk : Nat) (aggs : List (Key × AggItem)) (row : Row) : Int :=
+  match curRow C aggs (row.take nk) with
+  | some r => if rowEq r row then 1 else 0
+  | none => 0
+
 /-! ### reference semantics: batch grouping of the consolidated input -/
 /-- the records of one group -/
 def ofKey (C : GBConf) (k : Key) (rs : List Rec) : List Rec :=
